@@ -442,7 +442,9 @@ void CoverTreeWrapper<P, DistanceCallback>::copy_zero_set(DistanceCallback& dcb,
     auto end = begin(zero_set) + size(zero_set);
     for (auto ele = begin(zero_set); ele != end; ele++)
     {
-        ScalarType upper_dist = new_upper_bound[0] + query_chi->max_dist;
+        // the bound holds at query_chi->p; a query below query_chi can be max_dist closer to the
+        // element and have a k-th neighbour max_dist farther away, as in descend()
+        ScalarType upper_dist = new_upper_bound[0] + query_chi->max_dist + query_chi->max_dist;
         if (shell(ele->dist, query_chi->parent_dist, upper_dist))
         {
             ScalarType d = distance(dcb, query_chi->p, ele->n->p, upper_dist);
@@ -471,7 +473,8 @@ void CoverTreeWrapper<P, DistanceCallback>::copy_cover_sets(DistanceCallback& dc
         auto end = begin(cover_sets[current_scale]) + size(cover_sets[current_scale]);
         for (; ele != end; ele++)
         {
-            ScalarType upper_dist = new_upper_bound[0] + query_chi->max_dist + ele->n->max_dist;
+            ScalarType upper_dist =
+                new_upper_bound[0] + query_chi->max_dist + query_chi->max_dist + ele->n->max_dist;
             if (shell(ele->dist, query_chi->parent_dist, upper_dist))
             {
                 ScalarType d = distance(dcb, query_chi->p, ele->n->p, upper_dist);
